@@ -21,6 +21,14 @@ type monC02 struct {
 
 func (*monC02) Name() string { return "C02" }
 
+// prop: the convergence machinery also decides the liveness halves of C07, C10, C12 and C19.
+func (m *monC02) prop(s *Sim) string {
+	if p := s.W.Extra["c02prop"]; p != "" {
+		return p
+	}
+	return "C02"
+}
+
 // liveLetter: spec.template once it is the active replica set's template.
 func (s *Sim) liveLetter(e *edsv1.ExtendedDaemonSet) (string, string) {
 	l := letterOfTpl(&e.Spec.Template)
@@ -125,7 +133,7 @@ func (m *monC02) RoundEnd(s *Sim, round int) {
 	if !all {
 		m.convergedAt = 0
 		if round-m.lastBusy > s.c02Bound() {
-			s.Violate("C02", "liveness", "", "not converged %d rounds after the canary ended (bound %d): %s", round-m.lastBusy, s.c02Bound(), m.lastReason)
+			s.Violate(m.prop(s), "liveness", "", "not converged %d rounds after the canary ended (bound %d): %s", round-m.lastBusy, s.c02Bound(), m.lastReason)
 			m.done = true
 			s.stopQuiesce = true
 		}
@@ -133,12 +141,12 @@ func (m *monC02) RoundEnd(s *Sim, round int) {
 	}
 	if m.convergedAt == 0 {
 		m.convergedAt = round
-		s.Stats.NonVacuous["C02.converged"]++
+		s.Stats.NonVacuous[m.prop(s)+".converged"]++
 		s.Probe(fmt.Sprintf("c02.rounds<=%d", ((round-m.lastBusy)/5+1)*5))
 		return
 	}
 	if ops != 0 {
-		s.Violate("C02", "fixpoint", "", "round %d after convergence still issued %d pod creates/deletes", round, ops)
+		s.Violate(m.prop(s), "fixpoint", "", "round %d after convergence still issued %d pod creates/deletes", round, ops)
 	}
 	if round >= m.convergedAt+2 {
 		m.checkStatus(s)
@@ -171,6 +179,6 @@ func (m *monC02) Quiesced(s *Sim) {
 		return
 	}
 	if m.convergedAt == 0 {
-		s.Violate("C02", "liveness", "", "not converged after %d quiesce rounds (last canary activity in round %d, bound %d): %s", s.W.Cfg.QuiesceRounds, m.lastBusy, s.c02Bound(), m.lastReason)
+		s.Violate(m.prop(s), "liveness", "", "not converged after %d quiesce rounds (last canary activity in round %d, bound %d): %s", s.W.Cfg.QuiesceRounds, m.lastBusy, s.c02Bound(), m.lastReason)
 	}
 }
